@@ -137,6 +137,14 @@ def run(tier, seed):
         files, importers = gen_tree(rng)
         unreadable = set(rng.sample(sorted(files), min(len(files), rng.choice([0, 0, 1, 2]))))
         patterns = rng.sample(PATTERNS, rng.choice([0, 0, 1, 2, 3]))
+        # patterns that match a DIRECTORY of this tree but not the files below it: exclusion is per file
+        # path, so such a pattern excludes nothing
+        live = oracle(files, unreadable, patterns, set())
+        tree_dirs = sorted({"/".join(p.split("/")[:k]) for p in live for k in range(1, len(p.split("/")))}) or \
+            sorted({"/".join(p.split("/")[:k]) for p in files for k in range(1, len(p.split("/")))})
+        if tree_dirs and rng.random() < 0.6:
+            d = rng.choice(tree_dirs)
+            patterns.append(rng.choice([d, "**/" + d.split("/")[-1], d[:-1] + "?"]))
         locs = [None] + rng.sample(LOCATIONS[1:], 3)
         names = []
         for j, loc in enumerate(locs):
